@@ -114,21 +114,6 @@ theorem sub_checkLimits {s : State} (h : Inv s) (now : Time) (mem : List Bool) :
     rw [alookup_checkLimitsLoop_some h _ _ _ hc]
     exact he
 
-theorem generation_deleteNode (s : State) (k : Key) : (deleteNode s k).generation = s.generation := by
-  unfold deleteNode; cases alookup k s.primary <;> rfl
-
-theorem generation_checkLimitsLoop (fuel : Nat) (s : State) (now : Time) (mem : List Bool) :
-    (checkLimitsLoop fuel s now mem).generation = s.generation := by
-  induction fuel generalizing s mem with
-  | zero => rfl
-  | succ n ih =>
-    unfold checkLimitsLoop
-    split
-    · split
-      · rw [ih, generation_deleteNode]
-      · rfl
-    · rfl
-
 /-- One step of the concrete cache refines one step of the specification (given the stamp), for
 every allocation outcome: the state stays a sub-map, and the answer is the specification's except
 that a fetch may miss. -/
